@@ -5,3 +5,4 @@ import Mappy.Props.C18
 import Mappy.Props.C16
 import Mappy.Props.C06
 import Mappy.Props.C03
+import Mappy.Props.C15
